@@ -746,7 +746,8 @@ class GenEval(AutoEvaluator):
         if isinstance(a, tuple) or isinstance(x, tuple):
             return Unknown("lu_solve of tuples")
         if x.is_const() and x.const_value() == 1:
-            return a                      # lu_solve(lu, identity): the explicit inverse; `a` stands for the inverse operator
+            # lu_solve(lu, identity): the explicit inverse, applied from the left wherever it is used; unsided, `a` stands for the inverse operator
+            return F.fn("preinv", a) if self.sided else a
         t = 0
         tn = kw.get("trans") or (node.args[2] if len(node.args) > 2 else None)
         if tn is not None:
